@@ -61,6 +61,9 @@ def plan(tier, seed):
             create=rnd.choice(["target", "target", "subclass", "context", "lazy"]),
             failing_first_start=rnd.random() < 0.35,
         )
+        if cfg["create"] == "context":
+            # the context's method need not be the default one
+            cfg["ctx_method"] = rnd.choice(METHODS)
         cfg["expect_procs"] = 1 + cfg["children"] * (1 + cfg["grandchildren"]) if rnd.random() < 0.75 else 0
         shards.append(dict(persona="other", persona_kw=dict(name="foot", version="1.16.2", xtversion=True), seed=seed, index=i, cfg=cfg, winsize=[80, 24, 640, 384]))
     return shards
@@ -172,6 +175,7 @@ def run_shard(shard, env):
             for t in ths:
                 t.start()
             procs_lock = threading.Lock()
+            start_errors = []
             nstart = cfg["children"]
             gate = threading.Barrier(nstart) if cfg.get("concurrent_starts") and nstart > 1 else None
 
@@ -189,7 +193,12 @@ def run_shard(shard, env):
                     procs.append(p)
                 if gate is not None:
                     gate.wait(10)  # the (first-ever) starts of this process race each other
-                p.start()  # outside any synchronized call
+                try:
+                    p.start()  # outside any synchronized call
+                except Exception as e:
+                    start_errors.append("%s: %s" % (type(e).__name__, e))
+                    for _ in range(1 + cfg["grandchildren"]):
+                        cc.announce_ready()  # on behalf of the processes that never came to be
 
             def starter():
                 for j in range(nstart):
@@ -210,7 +219,8 @@ def run_shard(shard, env):
             for t in ths:
                 t.join(max(0.1, deadline - time.monotonic()))
             for p in procs:
-                p.join(max(0.1, deadline - time.monotonic()))
+                if p.pid:
+                    p.join(max(0.1, deadline - time.monotonic()))
         finally:
             if ctx:
                 ctx.__exit__()
@@ -238,6 +248,8 @@ def run_shard(shard, env):
                             stolen.append("get_terminal_name_version() = %r in %s (the reply was lost or taken by another caller)" % (r[4], (r[1], r[2])))
                     elif r[0] == "B":
                         stolen.append("a bystander's read_tty_all() in %s received %r: a reply addressed to another caller" % ((r[1], r[2]), r[4][:40]))
+                    elif r[0] == "S":
+                        start_errors.append(r[3])
                     elif r[0] == "b":
                         res.count("bystander reads that found nothing (as they must)")
                     else:
@@ -284,6 +296,8 @@ def run_shard(shard, env):
             elif not hung:
                 res.violation("C14:reply-mismatch", "query %d by %s got %r (lost or delivered to another caller); start method %s" % (q[4], (q[1], q[2]), q[5][:60], cfg["method"]), case)
                 break
+        if start_errors:
+            res.violation("C14:start-raised", "Process.start() of a process created as %s (context method %s, default start method %s) raised %s" % (cfg.get("create"), cfg.get("ctx_method"), cfg["method"], start_errors[0][:300]), case)
         if stolen and not hung:
             res.violation("C14:reply-stolen", "%d observations, e.g. %s; start method %s" % (len(stolen), stolen[0], cfg["method"]), case)
         exits = [p.exitcode for p in procs if p.pid]
